@@ -1,15 +1,16 @@
 #!/bin/bash
 # usage: confirm_seeded.sh <worktree> <name>   -- confirms a seeded change in its scratch worktree and stores it
 wt=$1; name=$2
-
+tmp=$(mktemp -d)
 cd $wt
-git diff -- icontract > /tmp/confirm.diff
-if ! diff -q /tmp/confirm.diff _seeded/patch.diff >/dev/null; then echo "NOTE: patch.diff differs from worktree diff; using worktree diff"; cp /tmp/confirm.diff _seeded/patch.diff; fi
+git diff -- icontract > $tmp/confirm.diff
+if ! diff -q $tmp/confirm.diff _seeded/patch.diff >/dev/null; then echo "NOTE: patch.diff differs from worktree diff; using worktree diff"; cp $tmp/confirm.diff _seeded/patch.diff; fi
 echo "== tests with change"; /venv/bin/python -m pytest -q -p no:cacheprovider --timeout=900 --continue-on-collection-errors 2>&1 | tail -1
-echo "== demo with change"; PYTHONPATH=$wt /venv/bin/python _seeded/demo.py > /tmp/demo_with.out 2>&1; echo "status=$?"; tail -3 /tmp/demo_with.out
-git stash -q
-echo "== demo without change"; PYTHONPATH=$wt /venv/bin/python _seeded/demo.py > /tmp/demo_without.out 2>&1; echo "status=$?"; tail -2 /tmp/demo_without.out
-git stash pop -q
+echo "== demo with change"; PYTHONPATH=$wt /venv/bin/python _seeded/demo.py > $tmp/demo_with.out 2>&1; echo "status=$?"; tail -3 $tmp/demo_with.out
+git apply -R _seeded/patch.diff
+echo "== demo without change"; PYTHONPATH=$wt /venv/bin/python _seeded/demo.py > $tmp/demo_without.out 2>&1; echo "status=$?"; tail -2 $tmp/demo_without.out
+git apply _seeded/patch.diff
 mkdir -p /verif/seeded/$name
 cp _seeded/patch.diff _seeded/demo.py _seeded/meta.json /verif/seeded/$name/
 echo stored /verif/seeded/$name
+rm -rf $tmp
